@@ -147,7 +147,7 @@ MUTATIONS: list[tuple[str, str, str, str, list[str]]] = [
     ("c15-cancelled-not-failed", BM, "            except asyncio.exceptions.CancelledError:\n                _logger.warning(", "            except asyncio.exceptions.CancelledError:\n                failed = False\n                _logger.warning(", ["C15"]),
     ("c15-excess-omitted", BM, "                failed_components=failed_batteries,\n                excess_power=Power.from_watts(distribution.remaining_power),",
      "                failed_components=failed_batteries,\n                excess_power=Power.zero(),", ["C15"]),
-    ("c15-pv-revert-target", PV, "        self._target_power = request.power - remaining_power\n", "", ["C15"]),
+    ("c15-pv-revert-target", PV, "        target_power = request.power - remaining_power\n", "        target_power = self._target_power\n", ["C15"]),
     ("c15-pv-failed-power-sign", PV, "            failed_power += allocations[component_id]", "            failed_power -= allocations[component_id]", ["C15"]),
     ("c17-get-bounds-max-min-swapped", BM, "            inclusion_upper=sum(\n                min(", "            inclusion_upper=sum(\n                max(", ["C17"]),
     ("c17-check-request-strict", BM, "in_upper_range = bounds.exclusion_upper <= power <= bounds.inclusion_upper", "in_upper_range = bounds.exclusion_upper <= power < bounds.inclusion_upper", ["C17"]),
